@@ -472,6 +472,23 @@ func uniformPosition(w *World, lf *LexFacts, r *Result) bool {
 							return initOf(st.Val, field, d+1)
 						}
 					}
+					// a copy taken in every round of the position kept across rounds (start := pos): on the
+					// first round it holds what that one was given before the loop
+					var copies []ssa.Value
+					for _, ref := range *al.Referrers() {
+						if st, ok := ref.(*ssa.Store); ok && st.Addr == ssa.Value(al) {
+							if u, ok := st.Val.(*ssa.UnOp); ok {
+								if al2, ok := u.X.(*ssa.Alloc); ok && al2 != al {
+									copies = append(copies, st.Val)
+									continue
+								}
+							}
+							copies = append(copies, nil)
+						}
+					}
+					if len(copies) == 1 && copies[0] != nil {
+						return initOf(copies[0], field, d+1)
+					}
 				}
 			}
 			return 0, false
